@@ -719,14 +719,18 @@ class _SubtypeDistanceVisitor(TypeVisitor[int | None]):
             The distance between the two types or None if they are not connected.
         """
         if isinstance(self.subtype, Instance):
+            base_distance = self.graph.get_shortest_path_length(supertype.type, self.subtype.type)
             if supertype.args and self.subtype.args:
+                if base_distance is None:
+                    # Unrelated classes, e.g., list[int] and set[int]
+                    return None
                 distances = list(
                     map(self.graph.subtype_distance, supertype.args, self.subtype.args)
                 )
                 if any(dist is None for dist in distances):
                     return None
-                return sum(distances)  # type: ignore[arg-type]
-            return self.graph.get_shortest_path_length(supertype.type, self.subtype.type)
+                return base_distance + sum(distances)  # type: ignore[arg-type]
+            return base_distance
 
         if isinstance(self.subtype, UnionType):
             distances = [
